@@ -16,7 +16,8 @@ from vlib.gj import viol
 ID = "C19"
 LEVEL = "model_checking"
 DESIGN_REF = "DESIGN.md §4 C19"
-ALPHABET = [1.0, 0.875, 0.75, 0.625, 0.5]  # exact in float32; with min_delta=0.25 hits 'improves by exactly delta' and creeping decreases
+# exact in float32; with min_delta=0.25 hits 'improves by exactly delta' and creeping decreases; 0.0 is a legal loss too
+ALPHABET = [1.0, 0.875, 0.75, 0.625, 0.5, 0.0]
 RULE = (
     "one case per (condition, patience, min_delta, scalar representation, unmonitored loss, verbose); inside a case "
     "ALL loss histories over the alphabet up to the depth bound are explored as a tree on the real object (cloned "
@@ -26,7 +27,7 @@ RULE = (
 )
 ASSUMPTIONS = [
     "reference semantics: improvement <=> loss < best - min_delta where best is the last counted improvement (the documented meaning of min_delta); stop <=> more than `patience` consecutive non-improving epochs",
-    "histories bounded by depth (quick 5, thorough 7) over a 5-letter alphabet; patience 0..3",
+    "histories bounded by depth (quick 5, thorough 7) over a 6-letter alphabet (incl. a loss of exactly 0); patience 0..3",
     "train() runs use one device, sgd, a one-parameter model with piecewise-linear loss (so the loss schedule is known exactly)",
 ]
 
@@ -59,7 +60,9 @@ def cases(tier, seed):
             out.append({"kind": "epoch", "epochs": epochs, "rep": rep, "depth": 5})
     for cond in ("TrainLoss", "ValLoss", "EpochStop"):
         for patience in (0, 1, 2):
-            for drop in (1, 3):
+            for drop in (1, 3, 8):  # drop=8: the loss reaches exactly 0 and stays there
+                if drop == 8 and patience != 1:
+                    continue
                 out.append({"kind": "train", "cond": cond, "patience": patience, "drop": drop, "cost": 30})
     for c in out:
         c.setdefault("cost", 4 if c.get("rep") == "jax0d" else 1)
@@ -279,7 +282,7 @@ def run_case(case, seed):
 
 
 CLAIM = {
-    "text": "Explicit-state exploration of the stop-condition state machine: the real TrainLoss/ValLoss/EpochStop objects are driven through every loss history over a 5-letter alphabet up to depth 5 (quick) / 7 (thorough) for every patience, min_delta and scalar representation, in product with a reference machine; the return value and best_model are compared at every transition. Real ml.train runs on a scheduled loss check termination epoch and the returned model.",
+    "text": "Explicit-state exploration of the stop-condition state machine: the real TrainLoss/ValLoss/EpochStop objects are driven through every loss history over a 6-letter alphabet (incl. a loss of exactly 0) up to depth 5 (quick) / 7 (thorough) for every patience, min_delta and scalar representation, in product with a reference machine; the return value and best_model are compared at every transition. Real ml.train runs on a scheduled loss check termination epoch and the returned model.",
     "note": "Trusted: the reference machine (10 lines, documented semantics of patience/min_delta). Histories longer than the bound and patience > 3 are not explored.",
     "technique": "explicit-state model checking of the real object in lock step with a reference machine over all bounded input histories",
 }
